@@ -15,29 +15,32 @@
 (***************************************************************************)
 EXTENDS Naturals, Sequences, TLC, TLCExt, Json, IOUtils
 
-Traces == JsonDeserialize(IOEnv.TRACE_FILE)
+\* The file is parsed once (first ASSUME) and kept in TLC register 1.
+ASSUME TLCSet(1, JsonDeserialize(IOEnv.TRACE_FILE))
+Traces == TLCGet(1)
 NT == Len(Traces)
 
-ASSUME \A i \in 1..NT : TLCSet(i, 0)
-ASSUME \A i \in (NT + 1)..(2 * NT) : TLCSet(i, <<0, "">>)
-ASSUME \A i \in (2 * NT + 1)..(3 * NT) : TLCSet(i, "")
+\* registers: 1 + t = reached, 1 + NT + t = bad, 1 + 2NT + t = view
+ASSUME \A t \in 1..NT : TLCSet(1 + t, 0)
+ASSUME \A t \in 1..NT : TLCSet(1 + NT + t, <<0, "">>)
+ASSUME \A t \in 1..NT : TLCSet(1 + 2 * NT + t, "")
 
 \* To be conjoined (always TRUE) into a CONSTRAINT of the trace spec.
 Record(tid, l, bad, view) ==
-  /\ IF l > TLCGet(tid)
-       THEN TLCSet(tid, l) /\ TLCSet(2 * NT + tid, view)
+  /\ IF l > TLCGet(1 + tid)
+       THEN TLCSet(1 + tid, l) /\ TLCSet(1 + 2 * NT + tid, view)
        ELSE TRUE
-  /\ IF bad # "" /\ TLCGet(NT + tid)[1] = 0
-       THEN TLCSet(NT + tid, <<l, bad>>)
+  /\ IF bad # "" /\ TLCGet(1 + NT + tid)[1] = 0
+       THEN TLCSet(1 + NT + tid, <<l, bad>>)
        ELSE TRUE
 
 \* POSTCONDITION of the trace spec.
 WriteVerdicts ==
   JsonSerialize(IOEnv.VERDICT_FILE,
-    [t \in 1..NT |-> [reached |-> TLCGet(t),
+    [t \in 1..NT |-> [reached |-> TLCGet(1 + t),
                       need |-> Len(Traces[t]) + 1,
-                      bad |-> TLCGet(NT + t),
-                      view |-> TLCGet(2 * NT + t)]])
+                      bad |-> TLCGet(1 + NT + t),
+                      view |-> TLCGet(1 + 2 * NT + t)]])
 
 \* helpers for optional fields of an event record
 Has(e, f) == f \in DOMAIN e
